@@ -76,18 +76,21 @@ def catalog(pid, tier):
         # record it (workers.append): the known finding C17:interrupt-between-thread-start-and-append lives there.  Everything else
         # must be clean for ALL bits; at the startup positions every bit except the finding's must be clean; the finding's own bit
         # at exactly those positions is the instance "*_startupleak" (expected counterexample -> KNOWN-FINDING; clean = finding gone).
-        def trio(name, gname, K, extra=None, sym=False, N=None):
+        def trio(name, gname, K, extra=None, sym=False, N=None, W=2):
             o = dict({"interrupt": True}, **(extra or {}))
-            a = inst(name, gname, 2, K, opts=dict(o, int_where="not_startup"), witnesses=("interrupted",), sym=sym, N=N)
-            b_ = inst(name + "_startup", gname, 2, K, opts=dict(o, int_where="only_startup"), witnesses=("interrupted",), sym=sym, N=N)
+            a = inst(name, gname, W, K, opts=dict(o, int_where="not_startup"), witnesses=("interrupted",), sym=sym, N=N)
+            b_ = inst(name + "_startup", gname, W, K, opts=dict(o, int_where="only_startup"), witnesses=("interrupted",), sym=sym, N=N)
             leak = ["c07_thread_alive_at_return", "c07_inflight_at_return", "c07_running_after_return"]  # all: "the unrecorded worker is not joined"
             b_["bits_override"] = [x for x in BITS["C17"] if x not in leak]
-            c = inst(name + "_startupleak", gname, 2, K, opts=dict(o, int_where="only_startup"), witnesses=(), sym=sym, N=N)
+            c = inst(name + "_startupleak", gname, W, K, opts=dict(o, int_where="only_startup"), witnesses=(), sym=sym, N=N)
             c["bits_override"] = leak
             c["finding_key"] = "C17:interrupt-between-thread-start-and-append"
             return [a, b_, c]
 
-        q = trio("int_pair_w2", "pair", 34) + trio("int_indep2_w2", "indep2", 34)[:1] + trio("int_indep2_w2_donefirst", "indep2", 34, {"done_first": True})[:2]
+        # quick: two workers on the dependent pair (all three position classes); one worker on two independent nodes (a call in flight, another
+        # still queued: what a shutdown that forgets the stop flag needs), with any-item and DONE-first queues.  Two workers there: thorough.
+        q = (trio("int_pair_w2", "pair", 34) + trio("int_indep2_w1", "indep2", 30, W=1)[:1]
+             + trio("int_indep2_w1_donefirst", "indep2", 30, {"done_first": True}, W=1)[:1])
         t = (trio("int_pair_w2", "pair", 34) + trio("int_indep2_w2", "indep2", 34) + trio("int_indep2_w2_donefirst", "indep2", 34, {"done_first": True})
              + trio("int_join3_w2", "join3", 40) + trio("int_sym2_w2", None, 34, sym=True, N=2))
     out = q if tier == "quick" else t
